@@ -98,7 +98,8 @@ func runFileSink(rc *RunCtx, prop string, crash bool, faults bool) {
 		logDir = filepath.Join(dir, "cpu-100%", "logs %d%s") // a directory name is not a format string
 	}
 	sink := &el.FileSink{Path: logDir}
-	sink.FileName = []string{"ev.log", "ev", "audit.txt"}[tp.Choose(3, "fname")]
+	// (names whose extension text also occurs earlier in the name: only the trailing one is the extension)
+	sink.FileName = []string{"ev.log", "ev", "audit.txt", "ev.login.log", "ev.log.log", "v1.0.1.0"}[tp.Choose(6, "fname")]
 	sink.MaxBytes = []int{0, 0, 1, 40, 120, 300}[tp.Choose(6, "maxbytes")]
 	sink.MaxFiles = tp.Choose(4, "maxfiles")
 	switch tp.Choose(6, "maxdur") {
@@ -137,6 +138,9 @@ func runFileSink(rc *RunCtx, prop string, crash bool, faults bool) {
 	// (the last one is a sibling's log, e.g. app-audit.log beside app.log: the prune glob <base>-*<ext>
 	// matches it, but it is not one of the sink's <base>-<timestamp><ext> files)
 	decoys := []string{"other.log", base + ext + ".bak", base + "X-1" + ext + ".old", "zz-" + base + "-5" + ext, base + "-audit" + ext}
+	if cut, _, _ := strings.Cut(sink.FileName, ext); cut != base && cut != "" {
+		decoys = append(decoys, cut+"-0000000000000000001"+ext) // a rotated file of the sibling sink <cut><ext>
+	}
 	preDecoys := tp.Choose(2, "decoys") == 0
 	if preDecoys {
 		os.MkdirAll(logDir, 0o700)
